@@ -541,11 +541,23 @@ func swapCase(s string) string {
 	return string(rs)
 }
 
+// pctAll spells every byte of s as %XX (the empty state becomes "%00": something that differs from it).
+func pctAll(s string) string {
+	if s == "" {
+		return "%00"
+	}
+	var b strings.Builder
+	for i := 0; i < len(s); i++ {
+		fmt.Fprintf(&b, "%%%02X", s[i])
+	}
+	return b.String()
+}
+
 // ---- part B: adversarial (jar, query) pairs ---------------------------------------------------------------------
 
 var stateClasses = []string{"missing", "otherkeys", "othername-pkce", "othername-minted", "otherlogin", "truncated", "bitflip", "badmac", "garbage", "dup-valid-first", "dup-foreign-first", "wrongname-only"}
 var pkceClasses = []string{"missing", "otherkeys", "othername-state", "othername-minted", "otherlogin", "truncated", "bitflip", "badmac", "garbage"}
-var queryClasses = []string{"otherlogin", "prefix", "suffix", "case", "empty", "absent", "dup-match-first", "dup-match-second", "body-differs", "query-differs"}
+var queryClasses = []string{"otherlogin", "prefix", "suffix", "case", "empty", "absent", "dup-match-first", "dup-match-second", "body-differs", "query-differs", "escaped", "escaped-once", "space-padded"}
 
 type partB struct {
 	c       *checker
@@ -697,6 +709,20 @@ func (b *partB) build(stateCls, pkceCls, queryCls string) *cbSpec {
 		spec.QueryStates = []string{qstate + pick(r, "x", " ", "\x00", "=")}
 	case "case":
 		spec.QueryStates = []string{swapCase(qstate)}
+	case "escaped":
+		// a value that differs from the state but percent-decodes to it (a comparison that "normalises" one side)
+		spec.QueryStates = []string{pctAll(qstate)}
+	case "escaped-once":
+		switch e := url.QueryEscape(qstate); {
+		case qstate == "":
+			spec.QueryStates = []string{"%00"}
+		case e != qstate:
+			spec.QueryStates = []string{e}
+		default:
+			spec.QueryStates = []string{pctAll(qstate[:1]) + qstate[1:]}
+		}
+	case "space-padded":
+		spec.QueryStates = []string{pick(r, " ", "\t", "\n") + qstate + pick(r, "", " ")}
 	case "empty":
 		spec.QueryStates = []string{""}
 	case "absent":
